@@ -5,6 +5,7 @@
 From Coq Require Import ZArith List Bool QArith Field Lia.
 Import ListNotations.
 Require Import PV.Base.Ops PV.Model.Relax PV.Proofs.RelaxProofs PV.Proofs.KaczmarzProofs.
+Require PV.Proofs.GsNrProofs.
 
 (* Gauss-Seidel on row i:  a_ii x'_i + sum_{j<>i} a_ij x'_j = b_i ; a zero diagonal leaves x
    untouched; no other entry changes *)
@@ -97,6 +98,35 @@ Proof.
   exact (gauss_seidel_ne_fixed_point F z0 o1 ad ml sb op dv inv ab eq le lt Fth conj Aj Ax Ap b Dinv x start stop step omega).
 Qed.
 Print Assumptions C09_kaczmarz_fixed_point.
+
+(* gauss_seidel_nr (CSC storage, r = b - A x carried along), any field, ANY conjugation, column i with pairwise
+   distinct in-range row indices: with d = sum_j conj(a_ji) r_j the step leaves  sum_j conj(a_ji) r'_j = d - |a_i|^2 delta,
+   i.e. (1 - omega) d when Dinv_i = 1/|a_i|^2 (omega = 1: the residual becomes orthogonal to column i); only x_i and
+   the residual entries of the column's rows change; d = 0 leaves (x, r) unchanged *)
+Theorem C09_gauss_seidel_nr_column : forall F (o : Ops F) inv (conj : F -> F), is_field o inv ->
+  forall Ap Aj Ax Dinv omega i x r,
+  let rows := zrange (nthZ Ap i 0%Z) (nthZ Ap (i + 1) 0%Z) in
+  let cj := fun j => Z.to_nat (nthZ Aj j 0%Z) in
+  let cd := GsNrProofs.cdot F (zero o) (add o) (mul o) conj Ap Aj Ax i in
+  let nrm2 := GsNrProofs.cnorm2 F (zero o) (add o) (mul o) conj Ap Ax i in
+  NoDup (map cj rows) -> (forall j, In j rows -> (cj j < length r)%nat) ->
+  let '(x', r') := gs_nr_col o conj Ap Aj Ax Dinv omega (x, r) i in
+  cd r' = sub o (cd r) (mul o nrm2 (GsNrProofs.ndelta F (zero o) (add o) (mul o) conj Ap Aj Ax Dinv omega i r)) /\
+  (mul o (nthZ Dinv i (zero o)) nrm2 = one o -> cd r' = mul o (sub o (one o) omega) (cd r)) /\
+  (forall k, ~ In k (map cj rows) -> nth k r' (zero o) = nth k r (zero o)) /\
+  (forall k, k <> Z.to_nat i -> nth k x' (zero o) = nth k x (zero o)) /\
+  length r' = length r /\ length x' = length x /\
+  (cd r = zero o -> x' = x /\ r' = r).
+Proof.
+  intros F [z0 o1 ad sb ml dv op ab eq le lt] inv conj [Fth _] Ap Aj Ax Dinv omega i x r.
+  exact (GsNrProofs.gs_nr_column F z0 o1 ad ml sb op dv inv ab eq le lt Fth conj Ap Aj Ax Dinv omega i x r).
+Qed.
+Print Assumptions C09_gauss_seidel_nr_column.
+(* non-vacuity: column (1 2)^T, r = (5 0), Dinv = 1/5, omega = 1: x_0 becomes 1 and r becomes (4, -2), orthogonal to
+   the column *)
+Example C09_gauss_seidel_nr_example :
+  gs_nr_col opsQ (fun a => a) [0;2]%Z [0;1]%Z [1#1;2#1] [1#5] (1#1) ([0#1], [5#1;0#1]) 0%Z = ([1#1], [4#1;-2#1]).
+Proof. vm_compute. reflexivity. Qed.
 
 (* the exact solution is a fixed point of a whole sweep, in any row order *)
 Theorem C09_gauss_seidel_fixed_point : forall F (o : Ops F) inv, is_field o inv ->
